@@ -1,5 +1,7 @@
 import ColaVerif.Lemmas.CGBridge
 import ColaVerif.Lemmas.CGExample
+import ColaVerif.Lemmas.CGInputs
+import ColaVerif.Lemmas.CGExample3
 
 /-!
 # C12 — CG returns the Krylov-optimal iterate and honours its stopping contract (property theorems)
@@ -17,6 +19,17 @@ Objects (all in namespace `CG`):
   `(b/‖b‖, x0/‖b‖)`: `ε ≤ ‖r̂_i‖`, `ε ≤ |γ̂_i|`, `ε ≤ |⟪p̂_i, A p̂_i⟫|` for all `i < k`, `ε = 1e-40`.
   (`C12_guards_positive`: for positive definite `A`, `M` these are positive reals while `r ≠ 0`,
   so the guards only ever act below `1e-40`.)
+
+Round 2 (end of the file): `GuardsOffN` is DERIVED from the inputs.
+* `Coercive A c` : `c ‖v‖² ≤ re ⟪v, A v⟫` (`c ≤ λ_min`); `TolAdmissible 1e-40 cA cM τ`.
+* `C12_guards_lower`: `cM ‖r_i‖² ≤ |γ_i|`, `cA cM² ‖r_i‖² ≤ |⟪p_i, A p_i⟫|` — the three guards reduce to
+  one condition on the residual; `C12_guards_from_residual`, `C12_optimal_resid` (any batch).
+* `C12_optimal_inputs`, `C12_optimal_hpd`: one right-hand side, `tol` above an explicit threshold that
+  depends on `λ_min(A)`, `λ_min(P)` only ⇒ optimality for every `k` the loop reaches, NO hypothesis on
+  intermediates.  `C12_witness_three_steps`: `k = 3` on `tridiag(-1, 2, -1)`.
+* `C12_dirs_eq_krylov`: `span {p_i} = K_k(MA, M r0)`.
+* `C12_guard_clause_needed`: the statement WITHOUT a lower bound on the scale is false of the code
+  (`A = 1e-41 · tridiag(-1, 2, -1)`): the guards compare with the absolute constant `1e-40`.
 -/
 
 open CG
@@ -246,6 +259,190 @@ example :
   show exb ≠ 0
   intro h; have := exb_norm; rw [h, norm_zero] at this; exact zero_ne_one this
 
+/-! ## round 2: the guard hypothesis from conditions on the inputs -/
+
+/-- **the three guards reduce to one condition on the textbook residual** (abstract inner product
+space).  `A`, `M` symmetric and coercive (`cA ‖v‖² ≤ re ⟪v, A v⟫`, i.e. `cA ≤ λ_min(A)`; same for `M`),
+`b ≠ 0`, `τ` admissible for `(1e-40, cA, cM)`.  If the residuals `r_i = b - A x_i` of TEXTBOOK CG on the
+original system satisfy `τ ‖b‖ ≤ ‖r_i‖` for `i < k`, no guard of `take_cg_step` acts in the first
+`k` steps.  (`cgSeq … i).r` is the textbook residual: `CGInv.res`.) -/
+theorem C12_guards_from_residual {E : Type*} [NormedAddCommGroup E] [InnerProductSpace 𝕜 E]
+    {A M : E →ₗ[𝕜] E} (hA : A.IsSymmetric) (hM : M.IsSymmetric) {ε cA cM τ : ℝ} (hcA : 0 < cA)
+    (hcM : 0 < cM) (A_coercive : Coercive A cA) (M_coercive : Coercive M cM) (hτ0 : 0 < τ)
+    (τ_admissible : TolAdmissible ε cA cM τ) {b x0 : E} (hb : b ≠ 0) {k : ℕ}
+    (residual_above : ∀ i < k, τ * ‖b‖ ≤ ‖(cgSeq A M b x0 i).r‖) :
+    GuardsOffN A M ε b x0 k :=
+  guardsOffN_of_resid hA hM hcA hcM A_coercive M_coercive hτ0 τ_admissible hb residual_above
+
+/-- the guarded denominators are bounded below by the residual: `cM ‖r_i‖² ≤ |γ_i|`,
+`cA cM² ‖r_i‖² ≤ |⟪p_i, A p_i⟫|` while `r_0 … r_i ≠ 0` (quantitative `C12_guards_positive`) -/
+theorem C12_guards_lower {E : Type*} [NormedAddCommGroup E] [InnerProductSpace 𝕜 E]
+    {A M : E →ₗ[𝕜] E} (hA : A.IsSymmetric) (hM : M.IsSymmetric) {cA cM : ℝ} (hcA : 0 < cA)
+    (hcM : 0 < cM) (A_coercive : Coercive A cA) (M_coercive : Coercive M cM) {b x0 : E} {i : ℕ}
+    (hr : ∀ j ≤ i, (cgSeq A M b x0 j).r ≠ 0) :
+    cM * ‖(cgSeq A M b x0 i).r‖ ^ 2 ≤ ‖(cgSeq A M b x0 i).γ‖ ∧
+      cA * cM ^ 2 * ‖(cgSeq A M b x0 i).r‖ ^ 2 ≤
+        ‖⟪(cgSeq A M b x0 i).p, A (cgSeq A M b x0 i).p⟫_𝕜‖ :=
+  guards_lower hA hM hcA hcM A_coercive M_coercive hr
+
+/-- **the directions span the Krylov space the property names**: for symmetric positive definite `A`,
+`M` and non-zero residuals `r_0 … r_{k-1}`, `span {p_i | i < k} = K_k(MA, M r0)` and the iterate is the
+energy minimiser over `x0 +` that space.  No breakdown hypothesis: positive definiteness gives it. -/
+theorem C12_dirs_eq_krylov {E : Type*} [NormedAddCommGroup E] [InnerProductSpace 𝕜 E]
+    {A M : E →ₗ[𝕜] E} (hA : A.IsSymmetric) (hM : M.IsSymmetric) (pA : PosDefOp A) (pM : PosDefOp M)
+    {b x0 : E} (k : ℕ) (hr : ∀ i < k, (cgSeq A M b x0 i).r ≠ 0) :
+    Submodule.span 𝕜 ((fun i => (cgSeq A M b x0 i).p) '' {i | i < k}) =
+      krylov (M ∘ₗ A) (M (b - A x0)) k ∧
+    ∀ {xs : E}, A xs = b → ∀ y, y - x0 ∈ krylov (M ∘ₗ A) (M (b - A x0)) k →
+      energy A xs (cgSeq A M b x0 k).x ≤ energy A xs y :=
+  ⟨dirs_eq_krylov_of_resid hA hM pA pM k hr,
+   fun hxs y hy => cg_optimal_krylov hA hM pA pM hxs hr hy⟩
+
+/-- **Krylov optimality with the guard hypothesis replaced by ONE condition on the textbook
+residuals** (any batch, column `j`): for `i < k` (the steps made) the relative residual
+`‖b - A x_i‖ / ‖b‖` of the textbook iterate is at least an admissible `τ`. -/
+theorem C12_optimal_resid {A : Matrix (Fin n) (Fin n) 𝕜} (hA : A.PosDef)
+    {P : Option (Matrix (Fin n) (Fin n) 𝕜)} (hP : PrecPosDef P) {cA cM τ : ℝ} (hcA : 0 < cA)
+    (hcM : 0 < cM) (A_coercive : Coercive (Matrix.toEuclideanLin A) cA)
+    (P_coercive : Coercive (precLin P) cM) (hτ0 : 0 < τ) (τ_admissible : TolAdmissible smallR cA cM τ)
+    (B X0 : Fin m → EuclideanSpace 𝕜 (Fin n)) (maxIters : ℕ) (tol : 𝕜) (j : Fin m)
+    (hb : B j ≠ 0)
+    (residual_above : ∀ i < (runBatchedCG (matArr A) (colsArr B) (colsArr X0) maxIters tol
+        (P.map matArr)).k,
+      τ * ‖B j‖ ≤ ‖(cgSeq (Matrix.toEuclideanLin A) (precLin P) (B j) (X0 j) i).r‖)
+    {xs : EuclideanSpace 𝕜 (Fin n)} (hxs : Matrix.toEuclideanLin A xs = B j) :
+    let k := (runBatchedCG (matArr A) (colsArr B) (colsArr X0) maxIters tol (P.map matArr)).k
+    let Kry := krylov (precLin P ∘ₗ Matrix.toEuclideanLin A)
+      (precLin P (B j - Matrix.toEuclideanLin A (X0 j))) k
+    xOut A P B X0 maxIters tol j - X0 j ∈ Kry ∧
+    (∀ y, y - X0 j ∈ Kry →
+      energy (Matrix.toEuclideanLin A) xs (xOut A P B X0 maxIters tol j) ≤
+        energy (Matrix.toEuclideanLin A) xs y) ∧
+    (∀ y, y - X0 j ∈ Kry →
+      energy (Matrix.toEuclideanLin A) xs y ≤
+        energy (Matrix.toEuclideanLin A) xs (xOut A P B X0 maxIters tol j) →
+      y = xOut A P B X0 maxIters tol j) := by
+  have hg := guardsOffN_of_resid (isSymmetric_toEuclideanLin hA) (isSymmetric_precLin hP) hcA hcM
+    A_coercive P_coercive hτ0 τ_admissible hb residual_above
+  rw [run_k] at hg ⊢
+  exact xOut_optimal hA hP B X0 maxIters tol j hb hg hxs
+
+/-- **Krylov optimality from conditions on the INPUTS only** (one right-hand side, `cg` with a 1-D
+`rhs` or a batch of one).  `A` Hermitian positive definite with `cA ≤ λ_min(A)`, preconditioner `None`
+or Hermitian positive definite with `cM ≤ λ_min(P)`, `b ≠ 0`, and `tol` admissible:
+`1e-40 ≤ tol`, `1e-40 ≤ cM tol²`, `1e-40 ≤ cA cM² tol²`.  Then, with `k` the number of steps the loop
+made (any `max_iters`, any `x0`): NO guard of `take_cg_step` acted (`GuardsOffN`), the returned vector
+is the `k`-th textbook CG iterate, it lies in `x0 + K_k(MA, M r0)`, minimises the energy over it and
+is the only minimiser.  No hypothesis on computed quantities: the stopping test itself keeps the
+relative residual above `tol` while the loop runs, and `C12_guards_lower` bounds the two guarded
+denominators below by the residual. -/
+theorem C12_optimal_inputs {A : Matrix (Fin n) (Fin n) 𝕜} (hA : A.PosDef)
+    {P : Option (Matrix (Fin n) (Fin n) 𝕜)} (hP : PrecPosDef P) {cA cM : ℝ} (hcA : 0 < cA)
+    (hcM : 0 < cM) (A_coercive : Coercive (Matrix.toEuclideanLin A) cA)
+    (P_coercive : Coercive (precLin P) cM)
+    (B X0 : Fin 1 → EuclideanSpace 𝕜 (Fin n)) (hb : B 0 ≠ 0) (maxIters : ℕ) {tol : ℝ}
+    (tol_pos : 0 < tol) (tol_admissible : TolAdmissible smallR cA cM tol)
+    {xs : EuclideanSpace 𝕜 (Fin n)} (hxs : Matrix.toEuclideanLin A xs = B 0) :
+    let k := (runBatchedCG (matArr A) (colsArr B) (colsArr X0) maxIters ((tol : ℝ) : 𝕜)
+      (P.map matArr)).k
+    let Kry := krylov (precLin P ∘ₗ Matrix.toEuclideanLin A)
+      (precLin P (B 0 - Matrix.toEuclideanLin A (X0 0))) k
+    GuardsOffN (Matrix.toEuclideanLin A) (precLin P) smallR (B 0) (X0 0) k ∧
+    xOut A P B X0 maxIters ((tol : ℝ) : 𝕜) 0 =
+      (cgSeq (Matrix.toEuclideanLin A) (precLin P) (B 0) (X0 0) k).x ∧
+    xOut A P B X0 maxIters ((tol : ℝ) : 𝕜) 0 - X0 0 ∈ Kry ∧
+    (∀ y, y - X0 0 ∈ Kry →
+      energy (Matrix.toEuclideanLin A) xs (xOut A P B X0 maxIters ((tol : ℝ) : 𝕜) 0) ≤
+        energy (Matrix.toEuclideanLin A) xs y) ∧
+    (∀ y, y - X0 0 ∈ Kry →
+      energy (Matrix.toEuclideanLin A) xs y ≤
+        energy (Matrix.toEuclideanLin A) xs (xOut A P B X0 maxIters ((tol : ℝ) : 𝕜) 0) →
+      y = xOut A P B X0 maxIters ((tol : ℝ) : 𝕜) 0) := by
+  have hg := guardsOffN_single hA hP hcA hcM A_coercive P_coercive B X0 hb maxIters tol_pos
+    tol_admissible
+  rw [run_k]
+  obtain ⟨h1, h2, h3⟩ := xOut_optimal hA hP B X0 maxIters ((tol : ℝ) : 𝕜) 0 hb hg hxs
+  exact ⟨hg, gRun_eq_cgSeq hb hg, h1, h2, h3⟩
+
+/-- **for Hermitian positive definite inputs there is a threshold `τ₀ > 0` depending only on `A` and
+the preconditioner** (explicitly: any `τ₀` admissible for `λ_min(A)`, `λ_min(P)`, e.g.
+`max(1e-40, 1e-20/√λ_min(P), 1e-20/(λ_min(P) √λ_min(A)))`) such that EVERY single-right-hand-side run
+with `tol ≥ τ₀` — any `b ≠ 0`, `x0`, `max_iters` — returns the Krylov-optimal iterate of the step at
+which it stops.  Hypotheses on the inputs only. -/
+theorem C12_optimal_hpd {A : Matrix (Fin n) (Fin n) 𝕜} (hA : A.PosDef)
+    {P : Option (Matrix (Fin n) (Fin n) 𝕜)} (hP : PrecPosDef P) :
+    ∃ τ₀ : ℝ, 0 < τ₀ ∧ ∀ (B X0 : Fin 1 → EuclideanSpace 𝕜 (Fin n)) (maxIters : ℕ) (tol : ℝ),
+      τ₀ ≤ tol → B 0 ≠ 0 → ∀ xs : EuclideanSpace 𝕜 (Fin n), Matrix.toEuclideanLin A xs = B 0 →
+      let k := (runBatchedCG (matArr A) (colsArr B) (colsArr X0) maxIters ((tol : ℝ) : 𝕜)
+        (P.map matArr)).k
+      let Kry := krylov (precLin P ∘ₗ Matrix.toEuclideanLin A)
+        (precLin P (B 0 - Matrix.toEuclideanLin A (X0 0))) k
+      xOut A P B X0 maxIters ((tol : ℝ) : 𝕜) 0 - X0 0 ∈ Kry ∧
+      (∀ y, y - X0 0 ∈ Kry →
+        energy (Matrix.toEuclideanLin A) xs (xOut A P B X0 maxIters ((tol : ℝ) : 𝕜) 0) ≤
+          energy (Matrix.toEuclideanLin A) xs y) ∧
+      (∀ y, y - X0 0 ∈ Kry →
+        energy (Matrix.toEuclideanLin A) xs y ≤
+          energy (Matrix.toEuclideanLin A) xs (xOut A P B X0 maxIters ((tol : ℝ) : 𝕜) 0) →
+        y = xOut A P B X0 maxIters ((tol : ℝ) : 𝕜) 0) := by
+  obtain ⟨cA, hcA, cA'⟩ := exists_coercive_of_posDefOp (posDefOp_toEuclideanLin hA)
+  obtain ⟨cM, hcM, cM'⟩ := exists_coercive_of_posDefOp (posDefOp_precLin hP)
+  obtain ⟨τ₀, hτ₀, hadm⟩ := exists_tolAdmissible smallR_pos hcA hcM
+  refine ⟨τ₀, hτ₀, ?_⟩
+  intro B X0 maxIters tol htol hb xs hxs
+  have h := C12_optimal_inputs hA hP hcA hcM cA' cM' B X0 hb maxIters (lt_of_lt_of_le hτ₀ htol)
+    (hadm.mono hcA hcM hτ₀.le htol) hxs
+  exact h.2.2
+
+/-- **witness, `k = 3` on a non-diagonal 3 × 3 system** (exact rationals): `A = tridiag(-1, 2, -1)`,
+`b = e₀`, `x0 = 0`, no preconditioner, `max_iters = 5`, `tol = 1/10`, `cA = 1/2`, `cM = 1`.  Every
+hypothesis of `C12_optimal_inputs` (and through its first conclusion of `C12_optimal`,
+`C12_is_textbook_cg`, `C12_residual_true`) holds, the loop makes exactly `3` steps and returns the
+exact solution `(3/4, 1/2, 1/4)`. -/
+theorem C12_witness_three_steps :
+    exA3.PosDef ∧ PrecPosDef (none : Option (Matrix (Fin 3) (Fin 3) ℝ)) ∧
+    Coercive (Matrix.toEuclideanLin exA3) (1 / 2) ∧
+    Coercive (precLin (none : Option (Matrix (Fin 3) (Fin 3) ℝ))) 1 ∧
+    oneCol exb3 0 ≠ 0 ∧ TolAdmissible smallR (1 / 2) 1 (1 / 10) ∧
+    Matrix.toEuclideanLin exA3 !₂[3 / 4, 1 / 2, 1 / 4] = oneCol exb3 0 ∧
+    (runBatchedCG (matArr exA3) (colsArr (oneCol exb3)) (colsArr (oneCol exz3)) 5
+      (((1 / 10 : ℝ) : ℝ) : ℝ) ((none : Option (Matrix (Fin 3) (Fin 3) ℝ)).map matArr)).k = 3 ∧
+    xOut exA3 none (oneCol exb3) (oneCol exz3) 5 (((1 / 10 : ℝ) : ℝ) : ℝ) 0 =
+      !₂[3 / 4, 1 / 2, 1 / 4] := by
+  have hk : (runBatchedCG (matArr exA3) (colsArr (oneCol exb3)) (colsArr (oneCol exz3)) 5
+      (RCLike.ofReal (1 / 10 : ℝ)) ((none : Option (Matrix (Fin 3) (Fin 3) ℝ)).map matArr)).k = 3 := by
+    rw [run_k]; exact ex3_steps
+  refine ⟨exA3_posDef, ex3_noprec, exA3_coercive, Mi_coercive, exb3_ne, ex3_tol, ex3_solves, hk, ?_⟩
+  have h := C12_optimal_inputs exA3_posDef ex3_noprec (by norm_num) one_pos exA3_coercive
+    Mi_coercive (oneCol exb3) (oneCol exz3) exb3_ne 5 (by norm_num) ex3_tol ex3_solves
+  have h2 := h.2.1
+  rw [hk] at h2
+  rw [show (((1 / 10 : ℝ) : ℝ) : ℝ) = RCLike.ofReal (1 / 10 : ℝ) from rfl, h2]
+  exact exS3.1
+
+/-- **the guard hypothesis is needed — genuine scale defect of the code** (clause
+`tiny-operator-scale`): on the Hermitian positive definite `A = 1e-41 · tridiag(-1, 2, -1)` (condition
+number `< 6`), `b = e₀`, `x0 = 0`, `max_iters = 1`, `tol = 1/10`, the model (= the code) returns
+`1e40 · e₀`, and `5e40 · e₀ ∈ x0 + K_1` has strictly smaller energy: the conclusion of `C12_optimal`
+fails.  `do_safe_div` compares `⟪p, A p⟫ = 2e-41` with the ABSOLUTE constant `1e-40`. -/
+theorem C12_guard_clause_needed :
+    exAt.PosDef ∧ oneCol exb3 0 ≠ 0 ∧ Matrix.toEuclideanLin exAt exxt = oneCol exb3 0 ∧
+    ∃ y : EuclideanSpace ℝ (Fin 3),
+      y - oneCol exz3 0 ∈ krylov (precLin (none : Option (Matrix (Fin 3) (Fin 3) ℝ)) ∘ₗ
+          Matrix.toEuclideanLin exAt)
+        (precLin (none : Option (Matrix (Fin 3) (Fin 3) ℝ))
+          (oneCol exb3 0 - Matrix.toEuclideanLin exAt (oneCol exz3 0)))
+        (runBatchedCG (matArr exAt) (colsArr (oneCol exb3)) (colsArr (oneCol exz3)) 1
+          (((1 / 10 : ℝ) : ℝ) : ℝ) ((none : Option (Matrix (Fin 3) (Fin 3) ℝ)).map matArr)).k ∧
+      energy (Matrix.toEuclideanLin exAt) exxt y <
+        energy (Matrix.toEuclideanLin exAt) exxt
+          (xOut exAt none (oneCol exb3) (oneCol exz3) 1 (((1 / 10 : ℝ) : ℝ) : ℝ) 0) := by
+  refine ⟨exAt_posDef, exb3_ne, exxt_solves, ?_⟩
+  obtain ⟨y, hy1, hy2⟩ := exAt_not_optimal
+  refine ⟨y, ?_, hy2⟩
+  rw [run_k, show (((1 / 10 : ℝ) : ℝ) : ℝ) = RCLike.ofReal (1 / 10 : ℝ) from rfl, exAt_steps]
+  exact hy1
+
 end exact
 
 #print axioms C12_cap
@@ -262,3 +459,11 @@ end exact
 #print axioms C12_guards_positive
 #print axioms C12_is_textbook_cg
 #print axioms C12_optimal
+#print axioms C12_guards_from_residual
+#print axioms C12_guards_lower
+#print axioms C12_dirs_eq_krylov
+#print axioms C12_optimal_resid
+#print axioms C12_optimal_inputs
+#print axioms C12_optimal_hpd
+#print axioms C12_witness_three_steps
+#print axioms C12_guard_clause_needed
